@@ -11,7 +11,7 @@ REGS64 = ["rax", "rcx", "rdx", "rbx", "rbp", "rsi", "rdi"]
 REGS64_IDX = {"rax": 0, "rcx": 1, "rdx": 2, "rbx": 3, "rbp": 5, "rsi": 6, "rdi": 7}
 REGS32 = {"rax": "eax", "rcx": "ecx", "rdx": "edx", "rbx": "ebx", "rbp": "ebp", "rsi": "esi", "rdi": "edi"}
 
-TERMINATORS = ("jmp", "jcc", "call", "ret", "ijmp", "icall")
+TERMINATORS = ("jmp", "jcc", "call", "ret", "ijmp", "icall", "syscall")
 NO_FALLTHROUGH = ("jmp", "ret", "ijmp")
 
 
@@ -38,6 +38,7 @@ class X86:
         "xor": "plain", "nop5": "plain", "lea": "plain", "ldq": "plain",
         "inc": "plain", "cmpmi": "plain", "jmp": "jmp", "jmp8": "jmp", "jcc": "jcc", "jcc8": "jcc",
         "call": "call", "ret": "ret", "ijmp": "ijmp", "icall": "icall",
+        "syscall": "syscall",
     }
 
     def kind(self, item):
@@ -93,6 +94,10 @@ class X86:
             return b"\xff\xe0", []
         if v == "icall":
             return b"\xff\xd0", []
+        if v == "syscall":
+            # (only in original modules: ends its block with a Syscall edge
+            # to an unknown target plus the fallthrough)
+            return (b"\x0f\x05" if self.bits == 64 else b"\xcd\x80"), []
         raise KeyError(v)
 
     def asm(self, item, ctx=None):
@@ -150,6 +155,8 @@ class X86:
         g = set(insn.groups)
         if capstone.CS_GRP_RET in g:
             return "ret"
+        if capstone.CS_GRP_INT in g:
+            return "syscall"
         if capstone.CS_GRP_CALL in g:
             op = insn.operands[0]
             return "call" if op.type == xc.X86_OP_IMM else "icall"
